@@ -492,6 +492,158 @@ def serverfirst_case(case, t: Tally, verbose=False):
     t.outcome(["server-first", f0["mode"], http2, ucls(usel if usel is not None else b""), pcls(sel)])
 
 
+# what the client negotiates on the *outer* (client <-> proxy) connection of a secure web proxy before it sends CONNECT.
+# (an outer h2 would need CONNECT over HTTP/2, which mitmproxy does not offer to proxy clients; see stack_case)
+INNER_OUTER_OFFERS = [[], [H11]]
+INNER_OFFERS = [[], [H2, H11], [H11, H2], [H11], [H2]]
+
+
+def inner_run(outer_offers, http2, offers, up_alpn):
+    """secure web proxy, TLS over TLS: outer handshake, CONNECT up.example:443, then the inner ClientHello; the real
+    stack (HttpProxy / ClientTLSLayer / HttpLayer / ... / ServerTLSLayer / ClientTLSLayer) is built by the real NextLayer
+    addon, upstream is an independent stdlib-ssl server.  -> dict of observations"""
+    e = env()
+    e["tctx"].options.http2 = http2
+    client = connection.Client(peername=("192.0.2.1", 1234), sockname=("192.0.2.2", 8080), timestamp_start=0,
+                               state=connection.ConnectionState.OPEN, proxy_mode=ProxyMode.parse("regular"))
+    ctx = mcontext.Context(client, e["tctx"].options)
+    top = modes.HttpProxy(ctx)
+    ocl, oinc, oout = std_client(outer_offers, sni="proxy.example")
+    icl, iinc, iout = std_client(offers, sni="up.example")
+    up, uinc, uout = upstream_peer(up_alpn)
+    seen = {"client_tls_starts": 0, "client_tls_established": 0, "failed": None, "inner_override": "no inner tls_start_client hook",
+            "upstream_first": None, "server": None}
+
+    def feed(ev):
+        pending = [ev]
+        while pending:
+            x = pending.pop(0)
+            for c in top.handle_event(x):
+                if isinstance(c, mcommands.OpenConnection):
+                    seen["server"] = c.connection
+                    c.connection.timestamp_start = 1.0
+                    c.connection.timestamp_tcp_setup = 1.0
+                    c.connection.state = connection.ConnectionState.OPEN
+                    pending.append(mevents.OpenConnectionCompleted(c, None))
+                elif isinstance(c, mlayer.NextLayerHook):
+                    e["nl"].next_layer(c.data)
+                    pending.append(mevents.HookCompleted(c, None))
+                elif isinstance(c, ptls.TlsClienthelloHook):
+                    e["tc"].tls_clienthello(c.data)
+                    pending.append(mevents.HookCompleted(c, None))
+                elif isinstance(c, ptls.TlsStartServerHook):
+                    e["tc"].tls_start_server(c.data)
+                    pending.append(mevents.HookCompleted(c, None))
+                elif isinstance(c, ptls.TlsStartClientHook):
+                    seen["client_tls_starts"] += 1
+                    e["tc"].tls_start_client(c.data)
+                    if seen["client_tls_starts"] == 2:
+                        seen["inner_override"] = c.data.ssl_conn.get_app_data()["client_alpn"]
+                        seen["upstream_first"] = bool(c.data.context.server.tls_established)
+                    pending.append(mevents.HookCompleted(c, None))
+                elif isinstance(c, ptls.TlsEstablishedClientHook):
+                    seen["client_tls_established"] += 1
+                    pending.append(mevents.HookCompleted(c, None))
+                elif isinstance(c, (ptls.TlsFailedClientHook, ptls.TlsFailedServerHook)):
+                    seen["failed"] = c.data.conn.error
+                    pending.append(mevents.HookCompleted(c, None))
+                elif isinstance(c, mcommands.StartHook):
+                    pending.append(mevents.HookCompleted(c, None))
+                elif isinstance(c, mcommands.SendData):
+                    (oinc if c.connection is client else uinc).write(c.data)
+
+    def outer_plain():
+        """decrypt what the proxy sent on the outer connection"""
+        out = b""
+        while True:
+            try:
+                d = ocl.read(65536)
+            except ssl.SSLWantReadError:
+                return out
+            if not d:
+                return out
+            out += d
+
+    def outer_send(plain):
+        ocl.write(plain)
+        feed(mevents.DataReceived(client, oout.read()))
+
+    # 1. outer handshake
+    feed(mevents.Start())
+    odone = False
+    for _ in range(20):
+        odone, data = client_step(ocl, oout)
+        if data:
+            feed(mevents.DataReceived(client, data))
+        if odone and seen["client_tls_established"] >= 1:
+            break
+    if not (odone and seen["client_tls_established"] == 1):
+        return {**seen, "stage": "outer handshake did not complete"}
+    outer_sel = ocl.selected_alpn_protocol()
+    # 2. CONNECT
+    outer_plain()
+    outer_send(b"CONNECT up.example:443 HTTP/1.1\r\nHost: up.example:443\r\n\r\n")
+    resp = outer_plain()
+    if not resp.startswith(b"HTTP/1.1 200"):
+        return {**seen, "stage": "CONNECT was not answered with 200: %r" % resp[:60]}
+    # 3. inner handshake (and, driven by the proxy, the upstream handshake)
+    idone = udone = False
+    for _ in range(60):
+        progress = False
+        if not udone:
+            try:
+                up.do_handshake()
+                udone = True
+            except ssl.SSLWantReadError:
+                pass
+        data = uout.read()
+        if data and seen["server"] is not None:
+            progress = True
+            feed(mevents.DataReceived(seen["server"], data))
+        got = outer_plain()
+        if got:
+            progress = True
+            iinc.write(got)
+        if not idone:
+            idone, data = client_step(icl, iout)
+            if data:
+                progress = True
+                outer_send(data)
+        if (idone and udone and seen["client_tls_established"] == 2) or not (progress or (not udone and uinc.pending) or oinc.pending):
+            break
+    usel = up.selected_alpn_protocol() if udone else None
+    isel = icl.selected_alpn_protocol() if idone else None
+    return {**seen, "server": None, "stage": "done" if (idone and udone and seen["client_tls_established"] == 2 and not seen["failed"]) else "inner handshake did not complete",
+            "outer_selected": outer_sel, "upstream_selected": usel.encode() if usel else None, "inner_selected": isel.encode() if isel else None}
+
+
+def inner_case(case, t: Tally, verbose=False):
+    """the inner connection of a secure web proxy follows the property's rules on its own: for every outer ALPN result
+    the inner selection is judged against the inner offers and the really negotiated upstream protocol, and it must
+    not depend on the outer result"""
+    http2, offers, up_alpn = case["http2"], case["offers"], case["upstream_alpn"]
+    f0 = {"via": "inner-tls-over-tls", "http2": http2, "upstream": "none-negotiated" if not up_alpn else "alpn-capable"}
+    sels = []
+    for outer in INNER_OUTER_OFFERS:
+        try:
+            r = inner_run(outer, http2, offers, up_alpn)
+        except KeyboardInterrupt:
+            raise
+        except BaseException as ex:
+            t.bad("stack_handshake_completes", f0, case, "outer handshake, CONNECT, inner handshake complete", repr(ex))
+            return
+        if verbose:
+            print("  outer offers=%r -> %r" % (outer, r))
+        if not t.judge("stack_handshake_completes", r["stage"] == "done", f0, case, "outer handshake, CONNECT, inner handshake complete", r):
+            return
+        usel, isel = r["upstream_selected"], r["inner_selected"]
+        upstream = (usel if usel is not None else b"") if r["upstream_first"] else None
+        judge_selection(t, "inner-tls-over-tls", offers, upstream, http2, None, isel, case, {"outer": pcls(r["outer_selected"].encode() if r["outer_selected"] else None)})
+        sels.append(isel)
+        t.outcome(["inner", http2, ucls(upstream), pcls(isel)])
+    t.judge("inner_selection_independent_of_outer", len(set(sels)) == 1, {**f0, "selected": "/".join(pcls(x) for x in sels)}, case, "the same protocol for every outer ALPN result", sels)
+
+
 def hs_chunk(cases):
     t = Tally()
     for c in cases:
@@ -499,6 +651,8 @@ def hs_chunk(cases):
             hs_case(c, t)
         elif c["part"] == "serverfirst":
             serverfirst_case(c, t)
+        elif c["part"] == "inner":
+            inner_case(c, t)
         else:
             stack_case(c, t)
         t.case(c if c["offers"] == [H2, H11] and c["http2"] else None, nontrivial=bool(c["offers"]), key=c)
@@ -528,7 +682,13 @@ def run(ctx):
             for http2 in (True, False):
                 for offers in SF_OFFERS:
                     hs.append({"part": "serverfirst", "mode": mode, "upstream_alpn": up_alpn, "http2": http2, "offers": offers})
-    ctx.bounds = {"serverfirst_modes": SF_MODES, "serverfirst_upstream_server_alpn": [None if a is None else [x.decode() for x in a] for a in SF_UPSTREAM_ALPN],
+    for up_alpn in SF_UPSTREAM_ALPN:
+        for http2 in (True, False):
+            for offers in INNER_OFFERS:
+                hs.append({"part": "inner", "upstream_alpn": up_alpn, "http2": http2, "offers": offers})
+    ctx.bounds = {"inner_tls_over_tls": {"outer_offers": [[o.decode() for o in x] for x in INNER_OUTER_OFFERS], "inner_offers": [[o.decode() for o in x] for x in INNER_OFFERS],
+                                         "upstream_server_alpn": "as serverfirst", "mode": "regular (secure web proxy, CONNECT)"},
+                  "serverfirst_modes": SF_MODES, "serverfirst_upstream_server_alpn": [None if a is None else [x.decode() for x in a] for a in SF_UPSTREAM_ALPN],
                   "serverfirst_offers": [[o.decode() for o in x] for x in SF_OFFERS],
                   "protocols": [p.decode() for p in PROTOS], "offer_list_maxlen": maxlen, "upstream": ["unknown(None)", "none negotiated(b'')"] + [p.decode() for p in PROTOS],
                   "http2": [True, False], "client_alpn_override": [None, "http/1.1"], "callback_cases": len(cases),
@@ -552,5 +712,7 @@ def replay(case, t: Tally, verbose=False):
         hs_case(case, t, verbose=True)
     elif case["part"] == "serverfirst":
         serverfirst_case(case, t, verbose=True)
+    elif case["part"] == "inner":
+        inner_case(case, t, verbose=True)
     else:
         stack_case(case, t, verbose=True)
